@@ -774,6 +774,46 @@ def _canary_pdp_reinsert_swapped():
     return _patch_many([(PDPRuinRepairEnv, "_local_operator", staticmethod(mutant))])
 
 
+def _source_mutant(cls, attr, replacements):
+    """Re-create a regression by editing the *source* of a repo function in memory: the edited
+    function is compiled under the repo file's name (same line numbers), so an exception it raises
+    is attributed to rl4co exactly as the original defect was.  Nothing is written to /repo."""
+    import inspect
+    import textwrap
+
+    func = cls.__dict__[attr]
+    src, first = inspect.getsourcelines(func)
+    text = textwrap.dedent("".join(src))
+    for old, new in replacements:
+        if old not in text:
+            raise HarnessError(f"canary source edit does not apply to {cls.__name__}.{attr}: {old!r}")
+        text = text.replace(old, new)
+    code = compile("\n" * (first - 1) + text, inspect.getsourcefile(func), "exec")
+    ns = {}
+    exec(code, func.__globals__, ns)  # noqa: S102  (in-memory mutant of library code)
+    return ns[attr]
+
+
+def _canary_b1_kopt_random_action():
+    """TSPkoptEnv._random_action (k_max > 2) with bare .squeeze(): crashes at batch size one (the
+    defect repaired by 'fix: improvement environments and policies crash at batch size one')."""
+    from rl4co.envs.routing.tsp.env import TSPkoptEnv
+
+    f = _source_mutant(TSPkoptEnv, "_random_action", [(".squeeze(-1)", ".squeeze()")])
+    return _patch_many([(TSPkoptEnv, "_random_action", f)])
+
+
+def _canary_b1_pdp_step_overlap():
+    """PDPRuinRepairEnv._step shifting action_record onto itself without clone(): every step at
+    batch size one raises (same repaired defect)."""
+    from rl4co.envs.routing.pdp.env import PDPRuinRepairEnv
+
+    f = _source_mutant(PDPRuinRepairEnv, "_step",
+                       [("action_record[:, :-1] = action_record[:, 1:].clone()",
+                         "action_record[:, :-1] = action_record[:, 1:]")])
+    return _patch_many([(PDPRuinRepairEnv, "_step", f)])
+
+
 C09.CANARIES = {
     "two_opt_short_loop": _canary_two_opt_short_loop,
     "kopt_short_loop": _canary_kopt_short_loop,
@@ -782,4 +822,6 @@ C09.CANARIES = {
     "reward_from_current": _canary_step("reward_from_current"),
     "stale_visited_time": _canary_step("stale_visited_time"),
     "pdp_reinsert_swapped": _canary_pdp_reinsert_swapped,
+    "b1_kopt_random_action": _canary_b1_kopt_random_action,
+    "b1_pdp_step_overlap": _canary_b1_pdp_step_overlap,
 }
